@@ -276,6 +276,10 @@ def step (line : String) : String :=
       (match decFm f with
        | some f => encExcept encSet (CTLS.modelcheck (decKripke g l) f)
        | none => "bad-formula")
+  | ["CTLSNAMES", g, l, f] =>
+      (match decFm f with
+       | some f => toString (CTLS.namesOK (decKripke g l) f)
+       | none => "bad-formula")
   | ["RESTRICT", m, f] =>
       (match decLogic m, decFm f with
        | some .CTL, some f => encFm f.restrictCTL
